@@ -14,6 +14,45 @@ CHECKS = {
          "(prefix off-by-one, dropped sort, inverted additive) cannot hide; nothing is sampled.",
          "Trusted: the reference router in harness/src/props/routing.rs; names outside the universe {a,ab,a::b,a::b::c,a::c,b} and more loggers than the bound are not covered.",
          "DESIGN.md §5 C01"),
+ "C02": ("model_checking", "E-ENUM + E-PROC",
+         "bounded exhaustive configuration x probe sweep, plus exhaustive set_config sequences in child processes checked against a reference model",
+         "(a) the complete C01 sweep judged on Log::enabled() and Logger::max_log_level(); (b) one child process per entry point (init_config, "
+         "init_config_with_err_handler, init_raw_config, init_file) x 6 initial configurations whose most verbose level sits at different tree positions; "
+         "children with a Handle apply every sequence of depth 3 (thorough 4) of set_config over the 6 configurations and after every step compare "
+         "log::max_level() with the model and log every (target, level) probe through log!/log_enabled!. History-dependent bugs (max level only raised / only lowered / not refreshed) "
+         "need a particular up-down sequence, which exhaustive sequence enumeration reaches.",
+         "Trusted: reference router; the log crate's macros. init_raw_config/init_file give no Handle, so only their initial installation is checked here (reloader: C15).",
+         "DESIGN.md §5 C02"),
+ "C03": ("model_checking", "E-ENUM",
+         "bounded exhaustive enumeration of filter chains x failing/healthy appenders against a reference chain interpreter",
+         "All chains over {Accept,Neutral,Reject} up to length 6 (8) on one appender, the real ThresholdFilter for 6 thresholds x 5 levels alone and combined, and all "
+         "assignments of chains (<=3, thorough <=4) and failing/healthy flags to 3-4 appenders of one logger chain; scripted filters log every consultation, the error handler "
+         "logs every call; per appender the consultation prefix, delivery and handler calls must equal the reference, twice in a row.",
+         "Trusted: reference interpreter in c03.rs; filters are stateless.", "DESIGN.md §5 C03"),
+ "C09": ("model_checking", "E-ENUM + E-PROC",
+         "bounded exhaustive enumeration of pattern ASTs printed to syntax and compared with a reference renderer (bytes and style events)",
+         "Every AST of four generator groups (all formatters and aliases x specs, containers around every list of <=2 leaves, containers nested to depth 3/4, every pair/triple of "
+         "top-level items incl. every escape form) is printed, compiled by the real parser and encoded for 5 records on a named and an unnamed thread; bytes and highlight "
+         "style events must equal the reference renderer, which interprets the AST and never consults the parser. Both build profiles ({D}/{R}) in the thorough tier; zone handling in TZ children.",
+         "Trusted: reference renderer; dates limited to %Y/%z/%+ (bracketed by clock reads); highlight colours not compared.", "DESIGN.md §5 C09"),
+ "C10": ("model_checking", "E-ENUM",
+         "bounded exhaustive enumeration of format specs x texts x write splits x short-write sinks against the truncate-then-pad law",
+         "Every spec (min,max in none/0..5(6), 14 fill characters incl. multi-byte and syntax characters, 3 alignments) x every text over {a,é,€,😀,U+0301} up to length 4 (5) x every "
+         "3-way cut of the text into write_str pieces x sinks accepting all/1/2/3 bytes per write, plus all pairs of small specs nested through groups and highlight; output must be "
+         "byte-identical to pad(take_chars(text,M),m). For m>M only what the property promises (valid UTF-8, at most M characters) is checked.",
+         "Trusted: the law as implemented in Spec::apply.", "DESIGN.md §5 C10"),
+ "C11": ("model_checking", "E-ENUM",
+         "exhaustive enumeration of all strings over the syntax alphabet up to a length bound in worker processes, plus edit neighbourhoods and error classes",
+         "All 49.7M (quick, length<=6; thorough 943M, length<=7) strings over a 19-symbol alphabet of every syntax character, alone and after the prefix x{l}, are compiled and encoded under "
+         "catch_unwind in 16 worker processes (an abort is a finding); all single (double) edits of 12 documented patterns; 2854 definitely malformed patterns must show an {ERROR: marker with "
+         "the preceding text rendered; every single-directive strftime format with utc/local; widths of 1..25 digits.",
+         "Trusted: chrono's StrftimeItems as the judge of which date formats are invalid; encoding only for widths <= 64 (the property's sanity bound).", "DESIGN.md §5 C11"),
+ "C13": ("model_checking", "E-ENUM",
+         "bounded exhaustive enumeration of builder inputs against a reference validity / lossy model, every returned Config installed and logged through",
+         "All logger names over {a,b,:} up to length 7 (9) and all builder inputs (appender sequences over {x,y} with duplicates, <=3 loggers over 5 names incl. malformed and repeated, reference "
+         "lists over {x,y,z-dangling} on root and loggers): strict success iff well-formed, reported names = offending names (no innocent, none missing), lossy result = valid items in order, "
+         "and every returned Config goes through Logger::new and is logged through with deliveries checked by the reference router.",
+         "Trusted: well-formedness read literally from the property text (so '::a' is well-formed).", "DESIGN.md §5 C13"),
 }
 PENDING_REASON = "check not built yet in this revision of /verif (planned, see DESIGN.md §5); not claimed until it exists"
 
